@@ -226,7 +226,7 @@ def r4_routes(rep, ctx):
     n_ret = 0
     for spec in ROUTES:
         n_ret += _classify_returns(rep, m, spec)
-    rep.floor("C01.R4", "returns of conversion routes classified", n_ret, 6)
+    rep.floor("C01.R4", "returns of conversion routes classified", n_ret, 5)
     if not any(o.rule == "C01.R4" and o.status == "violated" for o in rep.obligations):
         rep.floor("C01.R4", "conversion returns", n_conv, len(ROUTES))
     else:
@@ -429,7 +429,7 @@ def r5_wiring(rep, ctx):
                     ok = False
                     why.append("UnitInfo %s receives %s" % (attr, show(t)))
             rep.check(ok, "C01.R5", "UnitDatabase.AddUnit:UnitInfo(...)", "AddUnit forwards frombase/tobase to the same-named UnitInfo slots", "; ".join(why), node=c, fn=add)
-    rep.floor("C01.R5", "wiring sites", n, 3)
+    rep.floor("C01.R5", "wiring sites", n, 1)
 
 
 def _params(t):
